@@ -29,6 +29,33 @@ def register(K):
         out.append((bad, None))
         return out
 
+    @K.external("int.from_bytes")
+    def _from_bytes(eng, st, args, kw, node):
+        """int.from_bytes(b, byteorder, signed=False) for a bytes value: a function of (bytes, order, signedness); non-negative when unsigned.
+        (a non-bytes argument — an iterable of ints — raises TypeError / is outside this model)"""
+        from pyvc.sorts import Bytes
+        from pyvc.eval import Unsupported
+        b = args[0]
+        order = args[1] if len(args) > 1 else kw.get("byteorder", eng.lit("big"))
+        signed = kw.get("signed", eng.lit(False))
+        if b.k != "bytes" or order.k != "str" or signed.k != "bool":
+            if b.k == "val":
+                out = []
+                for s2, isb in eng.branch(st, Val.is_Y(b.t), "int.from_bytes of a bytes value"):
+                    if isb:
+                        f = z3.Function("INT_FROM_BYTES", Bytes, Str, Bool, Int)
+                        r = f(Val.y(b.t), order.t, signed.t)
+                        s2.assume(z3.Implies(z3.Not(signed.t), r >= 0))
+                        out.append((s2, vint(r)))
+                    else:
+                        out.append((eng.raise_exc(s2, "TypeError"), None))
+                return out
+            raise Unsupported(f"{eng.where(node)}: int.from_bytes of {b!r}")
+        f = z3.Function("INT_FROM_BYTES", Bytes, Str, Bool, Int)
+        r = f(b.t, order.t, signed.t)
+        st.assume(z3.Implies(z3.Not(signed.t), r >= 0))
+        return [(st, vint(r))]
+
     @K.external_method("file", "close")
     def _close(eng, st, recv, args, kw, node):
         st.log.append(("close", recv.cls, recv.t))
